@@ -397,6 +397,13 @@ fn lib_writer_flush() {
 #[test]
 fn lib_from_name() {
     let r = catch_unwind(|| -> Option<String> {
+        {
+            let mut empty: &[u8] = &[];
+            match ArchiveFileBlock::from(&mut empty) {
+                Err(_) => {}
+                Ok(b) => return Some(format!("an exhausted source was parsed as a block (type byte {:?}): a cut on a block boundary looks like a complete archive", match b { ArchiveFileBlock::EndOfArchiveData => 0xFEu8, ArchiveFileBlock::FileStart { .. } => 0, ArchiveFileBlock::FileContent { .. } => 1, ArchiveFileBlock::EndOfFile { .. } => 0xFF })),
+            }
+        }
         for (name_len, present) in [(3usize, 3usize), (3, 2), (3, 0), (1, 0), (0, 0), (40, 39), (40, 40)] {
             let mut hdr = vec![0u8];
             hdr.extend_from_slice(&7u64.to_le_bytes());
